@@ -713,6 +713,7 @@ type schedOutput struct {
 	TotalSched    int             `json:"total_schedules"`
 	SnapshotCalls int             `json:"snapshot_checks"`
 	SnapshotBad   []string        `json:"snapshot_violations"`
+	LazyInit      []string        `json:"one_time_initialisations"`
 	ReplayChecked int             `json:"replays_checked_deterministic"`
 	Errors        []string        `json:"errors"`
 	Wall          float64         `json:"wall_s"`
@@ -800,6 +801,7 @@ func c20Schedules(r *eng.Run) {
 				r.SelfFail("scheduler: %s", e)
 			}
 			if s == 0 {
+				r.Extra["one_time_initialisations_observed"] = len(o.LazyInit)
 				for _, sb := range o.SnapshotBad {
 					r.Fail(eng.Case{Op: "pure:package-state", Args: []string{sb}, Got: sb, Want: "no operation modifies package-level state or depends on call history"})
 				}
@@ -897,7 +899,7 @@ func C20(r *eng.Run) {
 		"schedules: the current sources are instrumented (go/ast + go/types) into a build overlay with a scheduling point before every statement touching a package-level variable (and at function entries/loops where a reference to a written variable escapes); sync is redirected to a yielding shim; " +
 		"a cooperative scheduler then explores ALL interleavings of 2-3 threads x 2 operations (every unordered pair of a 19-entry operation menu on shared operands) up to the preemption bound, comparing every thread's results with the sequential results; states = complete executions, transitions = scheduling decisions. " +
 		"A separate free-running -race pass over the same operation bodies is supplementary."
-	r.Assumptions = []string{"binary codec is the identity on bits (checked at start; decided by C12)", "scheduling points at statement granularity on package-level variables; memory-model effects below that are only sampled by the -race pass",
+	r.Assumptions = []string{"binary codec is the identity on bits (checked at start; decided by C12)", "package-level state may settle once (a table built on first use): only changes after every operation has run once are violations; scheduling points at statement granularity on package-level variables; memory-model effects below that are only sampled by the -race pass",
 		"DefaultRoundingMode is not written by the harness during concurrent runs (the property excludes that)", "Format/Append with precision MaxInt for verbs e/E/f is not exercised (it denotes an unbounded output)"}
 	if !CodecSanity(r) {
 		return
